@@ -62,14 +62,13 @@ def F(d, ns, ver, deps='', inner=None):
 
 
 WIDE = (
-    [F(d, 'A', v) for v in VERS for d in DIRS] +
-    [F('d1', 'A', '2.0', 'B-1.9'), F('d2', 'A', '2.0', 'B-1.9'), F('d3', 'A', '2.0', 'B-1.9'),
-     F('d1', 'A', '1.10', 'B-1.10'), F('d2', 'A', '2', 'B-1.9+C-2.0'),
-     F('d1', 'B', '1.9', 'C-2.0'), F('d2', 'B', '1.9'), F('d3', 'B', '1.9', 'C-2.0'),
-     F('d1', 'B', '1.10'), F('d2', 'B', '1.10'), F('d2', 'B', '2'),
-     F('d1', 'C', '2.0'), F('d2', 'C', '2.0'), F('d1', 'C', '2'), F('d2', 'C', '1.9'),
-     F('d1', 'A', '2.0', inner='Z-2.0'), F('d2', 'A', '2.0', inner='A-3.0'), F('d1', 'A', '1.9', inner='A-3.0'),
-     F('d1', 'B', '1.9', inner='Z-1.9'), F('d3', 'A', '2.0', inner='A-3.0')]
+    [F(d, 'A', v) for v in VERS for d in ('d1', 'd2')] + [F('d3', 'A', '1.10'), F('d3', 'A', '2.0')] +
+    [F('d1', 'A', '2.0', 'B-1.9'), F('d2', 'A', '2.0', 'B-1.9'), F('d1', 'A', '1.10', 'B-1.10'),
+     F('d2', 'A', '2', 'B-1.9+C-2.0'),
+     F('d1', 'B', '1.9', 'C-2.0'), F('d2', 'B', '1.9'), F('d3', 'B', '1.9', 'C-2.0'), F('d1', 'B', '1.10'), F('d2', 'B', '2'),
+     F('d1', 'C', '2.0'), F('d2', 'C', '2.0'), F('d2', 'C', '2'),
+     F('d1', 'A', '2.0', inner='Z-2.0'), F('d2', 'A', '2.0', inner='A-3.0'), F('d1', 'B', '1.9', inner='Z-1.9'),
+     F('d3', 'A', '2.0', inner='A-3.0')]
 )
 
 CORE = [
@@ -103,6 +102,36 @@ def op_text(op):
     if k == 'm':
         return 'load_typelib(mem:%s%s)' % (op[1], ',LAZY' if op[2] else '')
     return repr(op)
+
+
+def op_class(op):
+    """operation with the namespace / directory / version values abstracted (violation keys)"""
+    k = op[0]
+    if k == 'p':
+        return 'prepend'
+    if k == 'r':
+        return 'require(%s%s)' % ('version' if op[2] else 'no version', ',LAZY' if op[3] else '')
+    if k == 'q':
+        return 'require_private(%s%s)' % ('version' if op[3] else 'no version', ',LAZY' if op[4] else '')
+    return 'load_typelib(memory%s)' % (',LAZY' if op[2] else '')
+
+
+_INST = re.compile(r'(d[123]/)?\b[A-CZ]-[0-9]+(\.[0-9x]+)?(\.typelib)?')
+
+
+def reason_class(reason):
+    return _INST.sub('<file>', reason.split(' (')[0])[:80]
+
+
+_CLEAN = re.compile(r'^[A-Za-z0-9._<>/+ (),-]*$')
+
+
+def clean(x):
+    """strings read back from freed memory are not stable: keep keys printable and deterministic"""
+    if isinstance(x, (list, tuple, set, frozenset)):
+        return [clean(y) for y in (sorted(x) if isinstance(x, (set, frozenset)) else x)]
+    x = str(x)
+    return x if _CLEAN.match(x) else '<garbage>'
 
 
 # ------------------------------------------------------------------- contents ---
@@ -343,7 +372,7 @@ class Model(object):
             return ERR({CONFLICT}, 'namespace already loaded at another version')
         f = self.elect(ns, ver, path)
         if f is None:
-            return ERR({NOT_FOUND}, 'no %s on the search path' % ('file %s-%s.typelib' % (ns, ver) if ver else 'numeric version of ' + ns))
+            return ERR({NOT_FOUND}, 'no %s on the search path' % ('file %s-%s.typelib' % (ns, ver) if ver else 'numerically versioned file of the namespace'))
         if f is AMBIG:
             return UNSPEC('two numerically equal versions in the same directory')
         d, fver, key = f
@@ -535,39 +564,51 @@ def parse_obs(text):
 
 
 def diff_obs(exp, got_text, mask):
-    """-> (list of (field, expected, observed) MUST differences, masked_deviates)"""
+    """-> (list of (field, expected, observed, class) MUST differences, masked_deviates).  `class` is a
+    short description without instance values (used in violation keys)."""
     got = parse_obs(got_text)
     if got is None:
-        return [('observation', 'parsable observation', got_text[:200])], False
+        return [('observation', 'parsable observation', got_text[:200], 'unparsable observation')], False
     eloaded, eper = exp
     gloaded, gdup, gper = got
     diffs = []
     dev = False
-    if [x for x in eloaded if x not in mask] != [x for x in gloaded if x not in mask]:
-        diffs.append(('loaded namespaces', ','.join(eloaded), ','.join(gloaded)))
+    el, gl = [x for x in eloaded if x not in mask], [x for x in gloaded if x not in mask]
+    if el != gl:
+        miss, extra = [x for x in el if x not in gl], clean([x for x in gl if x not in el])
+        diffs.append(('loaded namespaces', ','.join(eloaded), ','.join(clean(gloaded)),
+                      'loaded namespaces: %s%s' % ('a loaded namespace is not reported' if miss else '',
+                                                   (' unexpected ' + ','.join(sorted(set(extra)))) if extra else '')))
     if gdup:
-        diffs.append(('loaded namespaces', 'each namespace once', '%d duplicates' % gdup))
+        diffs.append(('loaded namespaces', 'each namespace once', '%d duplicates' % gdup, 'loaded namespaces: duplicates'))
     if [x for x in eloaded if x in mask] != [x for x in gloaded if x in mask]:
         dev = True
     for ns in NSS:
         e, g = eper[ns], gper.get(ns)
         if g is None:
-            diffs.append((ns, 'observation', 'missing'))
+            diffs.append((ns, 'observation', 'missing', 'namespace observation missing'))
             continue
         d = []
-        for f in ('reg', 'ver', 'path', 'imm', 'trans'):
+        for f, what in (('reg', 'is_registered(ns,NULL)'), ('ver', 'version'), ('path', 'typelib path'),
+                        ('imm', 'immediate dependencies'), ('trans', 'transitive dependencies')):
             if e[f] is None:
                 continue
             if e[f] != g[f]:
-                d.append(('%s.%s' % (ns, f), e[f], g[f]))
+                d.append(('%s.%s' % (ns, what), e[f], clean(g[f]), 'wrong ' + what))
         ge = set(g['enum']) if g['enum'] != '-' else set()
         if not (set(e['enum']) <= ge <= set(e['enum']) | e['enum_opt']):
-            d.append(('%s.enumerate_versions' % ns, e['enum'], g['enum']))
+            if e['reg'] and e['ver'] not in ge:
+                cls = 'enumerate_versions lacks the loaded version'
+            elif set(e['enum']) - ge:
+                cls = 'enumerate_versions lacks an available version'
+            else:
+                cls = 'enumerate_versions reports a version that is neither loaded nor available'
+            d.append(('%s.enumerate_versions' % ns, e['enum'], clean(g['enum']), cls))
         gi = set(g['isreg']) - e['isreg_opt']
         if gi != set(e['isreg']):
-            d.append(('%s.is_registered' % ns, e['isreg'], g['isreg']))
+            d.append(('%s.is_registered(ns,version)' % ns, e['isreg'], clean(g['isreg']), 'wrong is_registered(ns,version)'))
         if g['crit'] and e['trans'] is not None:
-            d.append(('%s.criticals' % ns, 0, g['crit']))
+            d.append(('%s.queries' % ns, 'no critical', '%d criticals' % g['crit'], 'query logged a critical'))
         if ns in mask:
             if d:
                 dev = True
@@ -710,6 +751,12 @@ def short(root, x):
     return str(x).replace(root + '/', '')
 
 
+def _printable(step_text):
+    """namespace keys read back from freed memory differ from run to run; such transcripts are
+    reported through the model comparison, not through the determinism check"""
+    return all(31 < ord(ch) < 127 or ch == '\n' for part in step_text for ch in part)
+
+
 class Checker(object):
     """Compares transcripts of one configuration with the model."""
 
@@ -745,14 +792,18 @@ class Checker(object):
             part.add(unspecified=1)
             part.outcome(('unspec', o.reason[:40]))
             return ('stop',)
-        reason = o.reason.split(' (')[0][:70]
+        oc, rc = op_class(op), reason_class(o.reason)
+        # divergences while some namespace is only lazily loaded share a few keys (one defect family)
+        lazy = any(e.lazy for _, e in state.loaded)
         if not result_matches(o, st.ret, resline):
-            exp_t, got_t = result_text(o, st.ret), got_result_text(resline)
-            self.violation(hist, i, 'result|%s|%s|expected %s|observed %s' % (op_text(op), reason, exp_t, got_t),
+            exp_t, got_t = result_text(o, st.ret), clean(got_result_text(resline))
+            got_c = got_t.split(' (')[0]
+            self.violation(hist, i, ('lazy|expected %s|observed %s' % (exp_t, got_c)) if lazy else
+                           'result|%s|%s|expected %s|observed %s' % (oc, rc, exp_t, got_c),
                            '%s: expected %s (%s), observed %s' % (op_text(op), exp_t, o.reason, got_t), exp_t, got_t)
             return ('viol',)
         if crit != 'C 0':
-            self.violation(hist, i, 'critical|%s' % op_text(op), '%s logged a critical/warning (%s)' % (op_text(op), crit),
+            self.violation(hist, i, 'critical|%s|%s' % (oc, rc), '%s logged a critical/warning (%s)' % (op_text(op), crit),
                            'no critical', crit)
             return ('viol',)
         exp, rendered = self.exp_obs(st.state)
@@ -763,16 +814,21 @@ class Checker(object):
                 r = self.cmp_cache[ck] = diff_obs(exp, obs, st.mask)
             diffs, dev = r
             if diffs:
-                f, e, g = diffs[0]
+                f, e, g, cls = diffs[0]
                 es, gs = short(self.root, e), short(self.root, g)
-                self.violation(hist, i, 'state|%s|%s|%s expected %s|observed %s' % (op_text(op), reason, f, es, gs),
+                only_enum = all(d[0].endswith('.enumerate_versions') for d in diffs)
+                self.violation(hist, i, 'query|%s' % cls if only_enum else 'lazy|%s' % cls if lazy else
+                               'state|%s|%s|%s' % (oc, rc, cls),
                                'after %s (%s): %s expected %s, observed %s' % (op_text(op), o.reason, f, es, gs), es, gs)
-                return ('viol',)
-            if dev:
+                # a divergence confined to enumerate_versions leaves model and implementation in
+                # the same state: keep comparing the rest of the history
+                if not only_enum:
+                    return ('viol',)
+            elif dev:
                 part.add(unspecified=1)
                 return ('stop',)
         part.add(traces_validated_against_impl=1)
-        part.nontrivial((cfg.setup, cfg.files, hist[:i + 1]))
+        part.add(distinct_nontrivial=1)       # (configuration, history prefix) pairs are distinct by construction
         part.outcome((op[0], o.kind, tuple(sorted(o.codes)) if o.codes else None, len(st.state.loaded),
                       resline.split()[-1] if o.kind == 'err' else ''))
         return ('ok', st.state)
@@ -790,7 +846,9 @@ class Checker(object):
             pre = hist[:i + 1]
             rec = self.prefix.get(pre)
             if rec is not None:
-                if rec[0] != steps[i]:
+                if rec[1][0] == 'viol':
+                    return
+                if rec[0] != steps[i] and _printable(rec[0]) and _printable(steps[i]):
                     self.violation(hist, i, 'nondeterministic|%s' % op_text(op),
                                    'the same history prefix produced two different transcripts',
                                    short(self.root, ' / '.join(rec[0])), short(self.root, ' / '.join(steps[i])))
@@ -918,9 +976,9 @@ def bfs_histories(cfg, menu, depth):
 
 def _work(chunk):
     part = Part()
-    mode, menu, depth, cfgs = chunk
-    b = cbuild.build(False)
-    pool = build_pool(b)
+    mode, asan, menu, depth, cfgs = chunk
+    pool = build_pool(cbuild.build(False))
+    b = cbuild.build(asan)
     rn = Runner(b, pool, 'c17')
     try:
         for setup, files in cfgs:
@@ -970,25 +1028,28 @@ def run(ctx):
     bounds = {'namespaces': list(NSS), 'versions': list(VERS), 'directories': list(DIRS), 'setups': sorted(SETUPS),
               'menu': [op_text(o) for o in MENU]}
     if not thorough:
-        plan = [('bfs', WIDE, 3, 2)]
+        plan = [('bfs', False, WIDE, 3, 2)]
     else:
-        plan = [('all', CORE, 4, 3), ('bfs', WIDE + WIDE_THOROUGH_EXTRA, 3, 3)]
-    nconf = 0
-    for mode, alphabet, maxfiles, depth in plan:
+        cbuild.build(True).driver('drv_repo')
+        plan = [('all', False, CORE, 4, 3), ('bfs', False, WIDE + WIDE_THOROUGH_EXTRA, 3, 3), ('bfs', True, CORE, 2, 2)]
+    for mode, asan, alphabet, maxfiles, depth in plan:
         for setup in sorted(SETUPS):
             cfgs, total, gsize = canonical_configs(setup, alphabet, MENU, maxfiles)
-            nconf += len(cfgs)
-            bounds['%s/%s' % (mode, setup)] = {'file_alphabet': len(alphabet), 'max_files': maxfiles, 'max_ops': depth,
+            bounds['%s%s/%s' % (mode, '-asan' if asan else '', setup)] = {'file_alphabet': len(alphabet), 'max_files': maxfiles, 'max_ops': depth,
                                                'placements': total, 'canonical_configurations': len(cfgs),
                                                'symmetry_group': gsize, 'state_dedup': mode == 'bfs'}
+            stride = int(os.environ.get('VERIF_C17_STRIDE', '0') or 0)      # development aid only
+            if stride > 1:
+                cfgs = cfgs[ctx.seed % stride::stride]
+                ctx.cap('VERIF_C17_STRIDE=%d: only every %d-th configuration' % (stride, stride))
             per = 4 if mode == 'all' else 24
             for i in range(0, len(cfgs), per):
-                jobs.append((mode, MENU, depth, [(setup, c) for c in cfgs[i:i + per]]))
+                jobs.append((mode, asan, MENU, depth, [(setup, c) for c in cfgs[i:i + per]]))
     ctx.set(rule='for every configuration (setup x placement of <= k files from the file alphabet, canonicalised under the '
                  'renamings that leave setup, alphabet and menu invariant): quick = model BFS with state de-duplication to '
                  'depth 2 over the %d-operation menu, every edge replayed; thorough = (all) every operation sequence of length '
                  '3 without de-duplication over <= 4 files of the core alphabet + (bfs) de-duplicated BFS to depth 3 over the '
-                 'wide alphabet.  Each history runs in a freshly forked child of drv_repo against typelibs compiled by the '
+                 'wide alphabet + (bfs-asan) depth-2 BFS over <= 2 core files with the ASan+UBSan build of library and driver.  Each history runs in a freshly forked child of drv_repo against typelibs compiled by the '
                  'rebuilt g-ir-compiler; after every operation the full observation of all namespaces is compared with the '
                  'reference model.  transitions = model edges, traces_validated = edges whose result and observation were '
                  'compared as MUST, unspecified = edges the statement does not fix (executed, crash-checked only). '
